@@ -57,6 +57,7 @@ struct BookState
     bool policy_best = false;
     bool loaded = false;
     int files = 0;
+    size_t stat_from = 0;  // index of the first go issued under the current book and policy
 };
 
 static std::string g_book_dir;
@@ -247,9 +248,15 @@ void run_book_op(World* w, const std::string& name, const std::string& args)
         }
         if (trunc >= 0 && size_t(trunc) < img.size()) img.resize(size_t(trunc));
         if (!bs.path.empty()) unlink(bs.path.c_str());
-        bs.path = g_book_dir + "/Book_" + std::to_string(getpid()) + "_" + std::to_string(++bs.files) + ".BIN";  // mixed case on purpose
+        // every other book of a session is written to the path of the previous one (a GUI's "book.bin" that was replaced on
+        // disk); the choice depends on the image only, so that it replays
+        bool same_path = bs.files > 0 && (fnv1a(FNV_INIT, img.data(), img.size()) & 1);
+        if (same_path) w->counters["book_same_path_rewritten"]++;
+        else ++bs.files;
+        bs.path = g_book_dir + "/Book_" + std::to_string(getpid()) + "_" + std::to_string(bs.files) + ".BIN";  // mixed case on purpose
         bs.fault = kind;
         bs.loaded = false;
+        bs.stat_from = w->gos.size();
         g_plan = FilePlan();
         if (kind == BF_ENOENT)
         {
@@ -340,8 +347,13 @@ void run_book_op(World* w, const std::string& name, const std::string& args)
             if (r.key == key) { weight_of[decode_polyglot_move(mb, r.move)] += r.weight; sum += r.weight; }
         if (weight_of.size() < 2 || sum <= 0 || bs.policy_best || bs.fault == BF_EIO || bs.fault == BF_ENOENT) return;
         std::string k4 = mb.key4();
-        for (auto& g : w->gos)
+        // only the requests answered from the book and policy in force now (an earlier book of the session may have known
+        // the same position with other weights)
+        for (size_t gi = bs.stat_from; gi < w->gos.size(); ++gi)
+        {
+            auto& g = w->gos[gi];
             if (g.bestmoves > 0 && g.root.key4() == k4 && g.infos.empty()) { obs[g.bestmove]++; n++; }
+        }
         if (n < 20) return;
         w->counters["c19_go_distribution_checks"]++;
         auto log_pmf = [](int64_t nn, double p, int64_t k) {
@@ -368,6 +380,7 @@ void run_book_op(World* w, const std::string& name, const std::string& args)
     if (name == "c19policy")
     {
         bs.policy_best = args == "best";
+        bs.stat_from = w->gos.size();
         return;
     }
     if (name == "c19sample")
@@ -624,6 +637,17 @@ Script gen_book_script(uint64_t run_seed, const std::string& tier, Rng& r)
                 if (int(pick.size()) > 6) pick.resize(6);
                 // weight pattern
                 uint64_t pat = r.below(7);
+                if (r.chance(0.12))
+                {
+                    // a key with many records (every legal move, some twice) and tied weights: per-key containers grow
+                    // past the sizes small books ever reach
+                    pick = ms;
+                    size_t want = size_t(r.range(17, 40));
+                    while (pick.size() < want) pick.push_back(ms[r.below(ms.size())]);
+                    if (pick.size() > 40) pick.resize(40);
+                    for (size_t i = pick.size(); i > 1; --i) std::swap(pick[i - 1], pick[r.below(i)]);
+                    pat = 1 + r.below(2);
+                }
                 for (size_t i = 0; i < pick.size(); ++i)
                 {
                     int wgt;
@@ -663,14 +687,26 @@ Script gen_book_script(uint64_t run_seed, const std::string& tier, Rng& r)
         else if (fk < 88) { kind = BF_EIO; arg = size > 0 ? int64_t(r.below(uint64_t(size) + 1)) : 0; }
         else kind = BF_ENOENT;
         if (r.chance(0.3) && kind == BF_SHORT && size > 0) trunc = std::max<int64_t>(0, size - int64_t(r.range(1, std::min<int64_t>(31, size))));
+        // the two options in either order: a GUI may send the policy before it names the book, and it may name a new book
+        // (or the same path again, rewritten) later in the session without repeating the policy
+        bool best = r.chance(0.5);
+        bool policy_first = r.chance(0.4);
+        if (policy_first)
+        {
+            s.ops.push_back(op(OP_SEND, std::string("setoption name Polyglot Sample value ") + (best ? "best" : "random")));
+            s.ops.push_back(op(OP_AWAIT_IDLE, ""));
+            s.ops.push_back(op(OP_CHECK, std::string("c19policy ") + (best ? "best" : "random")));
+        }
         s.ops.push_back(op(OP_AWAIT_IDLE, ""));
         s.ops.push_back(op(OP_CHECK, "bookfile " + std::to_string(kind) + " " + std::to_string(arg) + " " + std::to_string(trunc) + " " + spec));
         s.ops.push_back(op(OP_SEND, "setoption name Polyglot Book value @BOOK@"));
         s.ops.push_back(op(OP_AWAIT_IDLE, ""));
         s.ops.push_back(op(OP_CHECK, "c19load"));
-        bool best = r.chance(0.5);
-        s.ops.push_back(op(OP_SEND, std::string("setoption name Polyglot Sample value ") + (best ? "best" : "random")));
-        s.ops.push_back(op(OP_CHECK, std::string("c19policy ") + (best ? "best" : "random")));
+        if (!policy_first)
+        {
+            s.ops.push_back(op(OP_SEND, std::string("setoption name Polyglot Sample value ") + (best ? "best" : "random")));
+            s.ops.push_back(op(OP_CHECK, std::string("c19policy ") + (best ? "best" : "random")));
+        }
         for (auto& p : ps)
         {
             // three ways to make p the current position: one position command; a position command followed by the
